@@ -1009,3 +1009,35 @@ V("C16", "rdf-norm-mean-volume", RDFP, "    norm = len(pairs) * np.sum(1.0 / tra
 V("C16", "karplus-cos-not-squared", NMRP, "    return A * np.cos(phi + phi0) ** 2.0 + B * np.cos(phi + phi0) + C", "    return A * np.cos(phi + phi0) + B * np.cos(phi + phi0) + C", "C16-R8")
 V("C16", "karplus-wrong-table", NMRP, "    J = _J3_function(phi, **J3_HN_C_coefficients[model])", "    J = _J3_function(phi, **J3_HN_CB_coefficients[model])", "C16-R8")
 V("C16", "twin-karplus-horner", NMRP, "    return A * np.cos(phi + phi0) ** 2.0 + B * np.cos(phi + phi0) + C", "    return (A * np.cos(phi + phi0) + B) * np.cos(phi + phi0) + C", None)
+V("C06", "superpose-reference-copied-late", TRJ, """        ref_align_xyz = np.array(
+            reference.xyz[frame, ref_atom_indices, :],
+            copy=True,
+            order="c",
+        ).reshape(1, -1, 3)
+
+        offset = np.mean(self_align_xyz, axis=1, dtype=np.float64).reshape(
+            n_frames,
+            1,
+            3,
+        )
+        self_align_xyz -= offset
+        if self_align_xyz.ctypes.data != self_displace_xyz.ctypes.data:
+            # when atom_indices is None, these two arrays alias the same memory
+            # so we only need to do the centering once
+            self_displace_xyz -= offset
+""", """        offset = np.mean(self_align_xyz, axis=1, dtype=np.float64).reshape(
+            n_frames,
+            1,
+            3,
+        )
+        self_align_xyz -= offset
+        if self_align_xyz.ctypes.data != self_displace_xyz.ctypes.data:
+            # when atom_indices is None, these two arrays alias the same memory
+            # so we only need to do the centering once
+            self_displace_xyz -= offset
+        ref_align_xyz = np.array(
+            reference.xyz[frame, ref_atom_indices, :],
+            copy=True,
+            order="c",
+        ).reshape(1, -1, 3)
+""", "C06-R2")
